@@ -17,6 +17,12 @@ def gen_cases(chk):
         c = cc.gen_case(rng, len(cases), max_ops=8 if quick else 14, max_samplers=6,
                         allow=("calibrate", "checkpoint", "restore") if i % 4 else
                         ("calibrate", "checkpoint", "restore", "set_samplers", "set_scheduler"), rl=rl, prec_prob=6)
+        if not rl and i % 4 and i % 5 == 0:
+            # a batch that raises (model, loss or sampler) is not recorded and must not consume a turn: after the retry,
+            # batch i is still produced by sampler i mod n
+            kind = rng.choice(["model", "loss", "sampler"])
+            c["fault"] = ["sampler", rng.below(len(c["samplers"])), rng.below(3)] if kind == "sampler" else [kind, rng.below(10)]
+            c["ops"] += [["calibrate", rng.randint(1, 3)], ["calibrate", rng.randint(1, 2)]]
         if rl:
             # reward is a relative improvement (prev - new) / prev: keep losses >= 0 (no division by zero), but do
             # include an exact zero, which is a legitimate best loss
